@@ -1,7 +1,7 @@
 SPECIFICATION Spec
-CONSTANT MaxLines = 3
+CONSTANT MaxLines = 2
 CONSTANT ModelNums = {1, 2}
-CONSTANT KeyIds = {1, 2, 3}
+CONSTANT KeyIds = {1, 3}
 CONSTANT Occs = {40, 60}
 CONSTANT PointIds = {1, 2, 4}
 CONSTANT IcNulls = {"?"}
